@@ -199,6 +199,9 @@ func (t *lpTr) extStructBytes(e ast.Expr, b *lpBinds) (string, bool) {
 			return s, true
 		}
 	case *ast.CallExpr:
+		if s, ok := t.marshalBytesCall(x, b); ok { // loops_marshal.go: net.CIDRMask, net.IP.Mask
+			return s, true
+		}
 		if p, recv := t.stdMethod(x); p != "" {
 			return "(" + p + " " + t.bytesExpr(recv, b) + ")", true
 		}
